@@ -109,6 +109,38 @@ Theorem C05_all_released_empty_history : forall ops s' L' tr,
 Proof. exact all_released_empty_history. Qed.
 Print Assumptions C05_all_released_empty_history.
 
+(* ownership of member names (json_object_object_add_ex flags): a replace keeps the entry's
+   key and its constant-key flag, a new member costs one library-owned key copy unless the
+   caller lends a constant key, a delete frees at most the one copy of the deleted entry, and
+   when everything is released no key copy is left *)
+Theorem C05_replace_keeps_key_copies : forall k v cs, key_copies (assoc_set k v cs) = key_copies cs.
+Proof. exact replace_keeps_key_copies. Qed.
+Print Assumptions C05_replace_keeps_key_copies.
+
+Theorem C05_insert_key_copies : forall cs k v (cst : bool), kconst k = false ->
+  key_copies (cs ++ [(if cst then kmark k else k, v)]) = key_copies cs + (if cst then 0 else 1).
+Proof. exact insert_key_copies. Qed.
+Print Assumptions C05_insert_key_copies.
+
+Theorem C05_delete_key_copies : forall k cs,
+  key_copies cs - 1 <= key_copies (assoc_del k cs) <= key_copies cs.
+Proof. exact delete_key_copies. Qed.
+Print Assumptions C05_delete_key_copies.
+
+Theorem C05_all_released_no_key_copies : forall h L,
+  Inv h L -> (forall i, L i = 0) -> heap_key_copies h = 0.
+Proof. exact all_released_no_key_copies. Qed.
+Print Assumptions C05_all_released_no_key_copies.
+
+Theorem C05_nonvacuous_keys :
+  exists s1 s2 s3,
+    step (mkSt [(1, mkNode 1 KObject [] (Some 0))] 2) (OObjAddEx 1 [97] None true true) = ROk s1 0 [] /\
+    step s1 (OObjAddEx 1 [98] None false false) = ROk s2 0 [] /\
+    step s2 (OObjAddEx 1 [97] None false false) = ROk s3 0 [] /\
+    heap_key_copies (heap_of s3) = 1 /\
+    option_map children (hfind (heap_of s3) 1) = Some [(kmark [97], None); ([98], None)].
+Proof. exact ex_keys. Qed.
+
 (* non-vacuity: an admissible history with a shared child that outlives its parent *)
 Theorem C05_nonvacuous_admissible : adm_hist init_state L0 ex_ops.
 Proof. exact ex_admissible. Qed.
